@@ -357,6 +357,7 @@ type job struct {
 type result struct {
 	obs  *Obs
 	robs *ResyncObs // resync stream
+	mobs []*Obs     // multi stream: one observation per registration
 	herr string     // failure of the machinery
 }
 
@@ -455,6 +456,8 @@ func runOne(chp **child, sp *Spec) result {
 	bound := stallBound()
 	if sp.Resync != nil {
 		js, _ = json.Marshal(map[string]interface{}{"resync": sp.Resync.compact(), "stall_s": int(bound.Seconds())})
+	} else if sp.Multi != nil {
+		js, _ = json.Marshal(map[string]interface{}{"multi": compactAll(sp.Multi), "stall_s": int(bound.Seconds())})
 	} else {
 		cs := compact(sp)
 		cs.StallS = int(bound.Seconds())
@@ -479,12 +482,13 @@ func runOne(chp **child, sp *Spec) result {
 		var reply struct {
 			Obs   *Obs       `json:"obs"`
 			RObs  *ResyncObs `json:"robs"`
+			MObs  []*Obs     `json:"mobs"`
 			Error string     `json:"error"`
 		}
 		if err := json.Unmarshal(line, &reply); err != nil {
 			return result{herr: "bad worker reply: " + err.Error()}
 		}
-		if (reply.Obs != nil && reply.Obs.Exit) || (reply.RObs != nil && reply.RObs.Exit) {
+		if (reply.Obs != nil && reply.Obs.Exit) || (reply.RObs != nil && reply.RObs.Exit) || (len(reply.MObs) > 0 && reply.MObs[len(reply.MObs)-1].Exit) {
 			// the worker saw the stall itself, reported what it had measured and is exiting
 			atomic.AddInt32(&stalls, 1)
 			ch.kill()
@@ -492,6 +496,9 @@ func runOne(chp **child, sp *Spec) result {
 		}
 		if reply.RObs != nil {
 			return result{robs: reply.RObs}
+		}
+		if len(reply.MObs) > 0 {
+			return result{mobs: reply.MObs}
 		}
 		if reply.Obs == nil {
 			return result{herr: "worker: " + reply.Error}
@@ -771,6 +778,31 @@ func generate(c *hx.Ctx) []tagged {
 		}
 		add("boundary", decorate(r, sp, false))
 	}
+
+	// skewed along the runtime's order: a few large objects and thousands of tiny ones
+	r = c.Rand("sync.skewed")
+	for i := 0; i < c.Pick(4, 40); i++ {
+		nbig := 10 + r.Intn(4)
+		big := 250000 + r.Intn(150000)
+		if nbig*big > limitBytes-300000 {
+			big = (limitBytes - 300000) / nbig
+		}
+		ntiny := 3000 + r.Intn(c.Pick(5000, 20000))
+		bigs := padList(r, nbig, func() int { return big - r.Intn(big/16) })
+		tiny := padList(r, ntiny, func() int { return r.Intn(60) })
+		sp := &Spec{}
+		switch i % 4 {
+		case 0, 1: // front-loaded containers
+			sp.Ctrs = append(bigs, tiny...)
+			sp.Pods = padList(r, r.Intn(3), func() int { return r.Intn(60) })
+		case 2: // back-loaded containers
+			sp.Ctrs = append(tiny, bigs...)
+		default: // front-loaded pods, tiny containers
+			sp.Pods = append(bigs, tiny[:ntiny/2]...)
+			sp.Ctrs = tiny[ntiny/2:]
+		}
+		add("skewed", decorate(r, sp, false))
+	}
 	return out
 }
 
@@ -832,6 +864,8 @@ func driveSync(c *hx.Ctx) error {
 	all := append(loadCorpus(c), generate(c)...)
 	all = append(all, loadResyncCorpus(c)...)
 	all = append(all, generateResync(c, min)...)
+	all = append(all, loadMultiCorpus(c)...)
+	all = append(all, generateMulti(c)...)
 	if os.Getenv("H_SYNC_ONLY") != "" { // development aid: run a single stream
 		var sel []tagged
 		for _, t := range all {
@@ -855,6 +889,9 @@ func driveSync(c *hx.Ctx) error {
 	var resyncShard *hx.Shard
 	finalAboveMin := map[string]int{} // error kind -> cases in which the failed final message carried more than min objects
 	var rtot resyncTotals
+	var multiShard *hx.Shard
+	var mtot multiTotals
+	retriesSeen := 0 // most consecutive oversize retries any single-registration state needs (predicted)
 	for i, t := range all {
 		sp, rs := t.sp, res[i]
 		if rs.herr != "" {
@@ -864,6 +901,13 @@ func driveSync(c *hx.Ctx) error {
 		if sp.Resync != nil {
 			handleResync(c, t, rs, min, &resyncShard, &rtot)
 			continue
+		}
+		if sp.Multi != nil {
+			handleMulti(c, t, rs, min, &multiShard, &mtot)
+			continue
+		}
+		if r := maxRetries(sp, min); r > retriesSeen {
+			retriesSeen = r
 		}
 		o := rs.obs
 		raw := map[string]interface{}{"stream": t.stream, "spec": compact(sp), "outcome": o.Outcome, "msgs": o.Msgs, "sync_err": o.SyncErr,
@@ -949,17 +993,30 @@ func driveSync(c *hx.Ctx) error {
 			}
 		}
 	}
+	if os.Getenv("H_SYNC_ONLY") == "" && !misbehaved {
+		if retriesSeen <= 8 {
+			c.HarnessError("no state needed more than 8 consecutive oversize retries of one message (most: %d)", retriesSeen)
+		}
+		if mtot.afterSplitTailWithoutKind == 0 {
+			c.HarnessError("multi: no registration that followed, on the same Adaptation, a split synchronisation whose last message carried no pods or no containers (%d cases)", mtot.cases)
+		}
+	}
 	if rtot.staleThenDelivered == 0 && !misbehaved && (os.Getenv("H_SYNC_ONLY") == "" || os.Getenv("H_SYNC_ONLY") == "resync") {
 		c.HarnessError("resync: no case in which a registration that failed after accepted chunks was followed by a completed one (%d cases)", rtot.cases)
 	}
 	c.Stats.Extra = map[string]interface{}{"cases": len(all), "synchronize_messages": totalMsgs, "split_cases": split, "failed_cases": failed,
 		"slowest_case_ms": maxMs, "slowest_case": slowest, "driver_wall_s": time.Since(t0).Seconds(), "min_objs_per_msg": min,
-		"resync_cases": rtot.cases, "resync_cases_stale_chunks_then_delivered": rtot.staleThenDelivered}
+		"resync_cases": rtot.cases, "resync_cases_stale_chunks_then_delivered": rtot.staleThenDelivered,
+		"multi_cases": mtot.cases, "multi_registrations": mtot.regs, "multi_registrations_after_split_tail_without_a_kind": mtot.afterSplitTailWithoutKind,
+		"most_consecutive_oversize_retries_predicted": retriesSeen}
 	c.Stats.Rule = "corpus (historic F4/F5 shapes, neighbours, boundaries) replayed first; then seeded streams: small (0..43 objects, all plugin scripts), " +
 		"many-small (100..4000 objects up to a few KiB), few-large (objects up to just under the 4 MiB limit, including untransmittable states), " +
 		"neighbours (0..5 pods + 9..120 containers of 60..700 KiB), mixed (tens of MiB), boundary (first message / first minimum chunk exactly at the limit, " +
 		"one byte below, one byte above). Every case runs a real adaptation.Adaptation against a raw scripted plugin service or a real stub.Stub in a worker process; " +
-		"a case is non-trivial when the state was split into >= 2 messages or synchronisation failed."
+		"a case is non-trivial when the state was split into >= 2 messages or synchronisation failed. " +
+		"Stream skewed: size distributions along the runtime's order - a dozen objects of 250..400 KB in front of (or behind) thousands of tiny ones - whose first message needs many consecutive oversize retries. " +
+		"Stream resync: ONE real stub.Stub value registers several times (registrations that fail after accepted chunks, then completed ones). " +
+		"Stream multi: two or three plugin ends (raw / stub) register one after the other on ONE Adaptation, all staying connected, against the same or a changed state; the first synchronisation is split and its last message carries no pods (or no containers); every registration is judged like a single one."
 	return nil
 }
 
